@@ -3,6 +3,8 @@ package main
 // C05 — Submit returns exactly its own response under every schedule.
 
 import (
+	"bytes"
+	"encoding/hex"
 	"fmt"
 	"reflect"
 
@@ -36,7 +38,146 @@ func corrC05(r *Run) {
 		i := i
 		confirmed(r, func() { c05Reuse(r, ts, i) })
 	}
+	// requests behind calls whose PDU Marshal refuses half-way: the octets the peer receives are checked frame by frame
+	for i, nr := 0, r.N(36, 150); i < nr; i++ {
+		i := i
+		confirmed(r, func() { c05AfterRefusal(r, ts, i) })
+	}
 	c05Resp(r, ts)
+}
+
+// c05Wire: what the scripted peer received, Write by Write, against the frames worked out when the calls were drawn
+// (want: sequence number -> Marshal encoding of that call's PDU): every Write carries exactly the frame of the call whose
+// sequence number it shows, each once.
+func c05Wire(r *Run, input string, w *World, want map[int32][]byte) {
+	seen := map[int32]bool{}
+	for _, wr := range w.T.Writes() {
+		if wr.ByReader {
+			continue
+		}
+		f, ok := want[wr.Seq]
+		switch {
+		case !ok || len(wr.Data) < 16:
+			r.Fail("wire/c05/unexpected-frame", "the peer received octets that are not the frame of any request issued on this connection", input,
+				fmt.Sprintf("Write #%d: %d octets %s", wr.Idx, len(wr.Data), hex.EncodeToString(wr.Data[:min(len(wr.Data), 48)])), "frames of the issued requests only")
+			return
+		case !bytes.Equal(wr.Data, f):
+			r.Fail("wire/c05/foreign-octets", "the frame the peer received for a request is not the Marshal encoding of that request", input,
+				fmt.Sprintf("Write #%d seq=%d: %d octets %s", wr.Idx, wr.Seq, len(wr.Data), hex.EncodeToString(wr.Data[:min(len(wr.Data), 48)])),
+				fmt.Sprintf("%d octets %s", len(f), hex.EncodeToString(f[:min(len(f), 48)])))
+			return
+		case seen[wr.Seq]:
+			r.Fail("wire/c05/duplicate-frame", "the peer received the frame of a request twice", input, fmt.Sprintf("seq=%d", wr.Seq), "once")
+			return
+		}
+		seen[wr.Seq] = true
+	}
+}
+
+// c05AfterRefusal: on one connection (and, the worlds following each other in one process, across connections) calls whose
+// PDU pdu.Marshal refuses after it has begun to encode it (a NUL in a C-octet string, a short message over 140 octets,
+// an esm_class / UDH element / destination list out of range; through Submit and through Send), each followed by good
+// requests on the same goroutine and on another.  The refused call returns an error and contributes no octets; every later
+// request is received by the peer as its own frame and returns its own response.
+func c05AfterRefusal(r *Run, ts []pduType, idx int) {
+	rng := r.Rng
+	w := NewWorld(true)
+	defer w.Shutdown()
+	w.StartWatch()
+	seq := int32(1 + rng.Intn(1<<20))
+	fresh := func() int32 { seq += int32(1 + rng.Intn(3)); return seq }
+	want := map[int32][]byte{}
+	type plan struct {
+		spec    CallSpec
+		refused bool
+	}
+	// everything is drawn (and its frame worked out) before the first call runs
+	var plans [][]plan
+	for g, ng := 0, 1+rng.Intn(2); g < ng; g++ {
+		var ps []plan
+		for k, n := 0, 2+rng.Intn(4); k < n; k++ {
+			if k%2 == 0 || rng.Intn(3) == 0 {
+				stage := refusedStages[(idx+k+g)%len(refusedStages)]
+				p := genRefused(rng, stage)
+				kind := "submit"
+				s := fresh()
+				if rng.Bool() {
+					kind = "send"
+					pdu.WriteSequence(p, s)
+				}
+				if expectedFrame(p, s) != nil {
+					continue // (this tree accepts it: not a refusal here)
+				}
+				ps = append(ps, plan{CallSpec{Kind: kind, Seq: s, P: p}, true})
+			}
+			good := genSendable(rng, ts, true, 800)
+			s := fresh()
+			want[s] = expectedFrame(good, s)
+			ps = append(ps, plan{CallSpec{Kind: "submit", Seq: s, P: good}, false})
+		}
+		plans = append(plans, ps)
+	}
+	nRefused := 0
+	var goods, bads []*Call
+	for g, ps := range plans {
+		var specs []CallSpec
+		for _, p := range ps {
+			specs = append(specs, p.spec)
+		}
+		cs := w.Go(g, specs...)
+		// the goroutine runs its calls one after the other: refused ones return at once, a good one sits in its Write
+		served := map[int]bool{}
+		for progress := true; progress && w.Stuck == ""; {
+			progress = false
+			for i, c := range cs {
+				if ps[i].refused || served[c.ID] || w.Returned(c) || !w.Written(c) {
+					continue
+				}
+				served[c.ID] = true // answered and released once, whatever becomes of it
+				f := frameOf(respFor(c.P, c.Seq))
+				if rng.Bool() {
+					w.Peer([][]byte{f}, nil)
+					w.Release(c)
+				} else {
+					w.Release(c)
+					w.Peer([][]byte{f}, nil)
+				}
+				progress = true
+			}
+		}
+		for i, c := range cs {
+			if ps[i].refused {
+				nRefused++
+				bads = append(bads, c)
+			} else {
+				goods = append(goods, c)
+			}
+		}
+	}
+	input := "sched " + w.Script()
+	r.Count(input, nRefused > 0, fmt.Sprintf("after-refusal/refused=%d", min(nRefused, 4)))
+	if runStuck(r, w, input) {
+		return
+	}
+	for _, p := range w.Panics() {
+		r.Fail("panic", "a library goroutine panicked", input, p, "no panic")
+	}
+	c05Wire(r, input, w, want)
+	for _, c := range bads {
+		if got := c.Class(); got != "err" {
+			r.Fail("submit/refusal-missing", "a call whose PDU cannot be marshalled did not return an error", input, fmt.Sprintf("%s %T: %s", c.Kind, c.P, got), "err")
+		}
+	}
+	for _, c := range goods {
+		wantC := fmt.Sprintf("ok:%#x:%d", idOfPDU(c.P)|0x80000000, c.Seq)
+		if got := c.Class(); got != wantC {
+			r.Fail("submit/after-a-refused-request", "a Submit issued after a call whose PDU was refused did not return, without error, the response carrying its own sequence number", input, got, wantC)
+		}
+	}
+	if app := w.App(); len(app) != 0 {
+		r.Fail("submit/response-leaked", "PDU() yielded a response to an outstanding request", input, fmtDeliveries(app), "[]")
+	}
+	r.Case(fmt.Sprintf("refusal#%d (admitted, within the hypotheses of C05) %.200s", idx, input), w.EnvExpr(connVariant))
 }
 
 // D25: the response becomes readable while the transport still holds the
@@ -112,6 +253,10 @@ func c05Scenario(r *Run, ts []pduType, idx, maxCallers int) {
 	}
 	if idx%5 == 0 && n >= 2 { // smallest positive sequence number
 		specs[0].Seq = 1
+	}
+	wantWire := map[int32][]byte{} // what the peer has to receive for each request, worked out before the first call runs
+	for _, sp := range specs {
+		wantWire[sp.Seq] = expectedFrame(sp.P, sp.Seq)
 	}
 	var wantApp []Delivery
 	stalled := ""
@@ -247,6 +392,7 @@ func c05Scenario(r *Run, ts []pduType, idx, maxCallers int) {
 			r.Fail(cls, "Submit did not return, without error, the response carrying its own sequence number", input, got, want)
 		}
 	}
+	c05Wire(r, input, w, wantWire)
 	if stalled != "" {
 		r.Fail("dispatch/stalled-behind-a-waiter", "Watch stopped dispatching inbound PDUs while a Submit call was still inside its transport Write", input,
 			tail(stalled, 300), "an unsolicited PDU is delivered to a receiving application regardless of the callers' progress")
@@ -286,10 +432,16 @@ func c05Reuse(r *Run, ts []pduType, idx int) {
 		w.Peer([][]byte{f}, [][]int{genCuts(rng, len(f))})
 	}
 	wantOf := func(c *Call) string { return fmt.Sprintf("ok:%#x:%d", idOfPDU(c.P)|0x80000000, c.Seq) }
+	wantWire := map[int32][]byte{}
+	submit := func(g int) *Call {
+		p, q := genSendable(rng, ts, true, 600), fresh()
+		wantWire[q] = expectedFrame(p, q)
+		return w.Go(g, CallSpec{Kind: "submit", Seq: q, P: p})[0]
+	}
 	g := 0
 	leftByCtx := 0
 	for round, rounds := 0, 2+rng.Intn(4); round < rounds && w.Stuck == ""; round++ {
-		a := w.Go(g, CallSpec{Kind: "submit", Seq: fresh(), P: genSendable(rng, ts, true, 600)})[0]
+		a := submit(g)
 		switch rng.Intn(4) {
 		case 0: // A gives up unanswered, inside its Write
 			w.CancelCtx(a)
@@ -312,7 +464,7 @@ func c05Reuse(r *Run, ts []pduType, idx int) {
 			g++ // B on another goroutine
 		}
 		for k, nb := 0, 1+rng.Intn(2); k < nb && w.Stuck == ""; k++ {
-			b := w.Go(g, CallSpec{Kind: "submit", Seq: fresh(), P: genSendable(rng, ts, true, 600)})[0]
+			b := submit(g)
 			if rng.Bool() {
 				answer(b)
 				w.Release(b)
@@ -343,6 +495,7 @@ func c05Reuse(r *Run, ts []pduType, idx int) {
 			r.Fail("submit/after-an-abandoned-request", "a Submit issued after another call had left through its own context did not return, without error, the response carrying its own sequence number", input, got, e.want)
 		}
 	}
+	c05Wire(r, input, w, wantWire)
 	if app := w.App(); len(app) != 0 {
 		r.Fail("submit/response-leaked", "PDU() yielded a response to an outstanding request", input, fmtDeliveries(app), "[]")
 	}
